@@ -77,7 +77,8 @@ def _fire_later(ctx, dom, f, cls, st, dv):
     """States after `dv` -- left unfired by the code under analysis -- is fired with V2 (the queued callbacks run)."""
     from ..absint import Frame, Interp
     it = Interp(dom, max_depth=6)
-    fr = Frame(f, 0, cls, name="<later>", is_method=False)
+    outside = ast.parse("def _fired_later():\n    pass").body[0]
+    fr = Frame(outside, 0, cls, name="<later>", is_method=False)
     return dom.fire(it, dv, st.set(f"dfr.{dv[1]}", ("ok", V2)), fr)
 
 
